@@ -7,6 +7,7 @@ package gossipval
 //@ func CheckSlotSpan(slotAfter, slot, span) err
 //@   property C19
 //@   opt pure_func=slotAfter
+//@   opt inline=always
 //@   ensures nowrap: slot + span >= 18446744073709551616 ==> err != nil
 //@   ensures window: slot + span < 18446744073709551616 ==> (err == nil <==> (slot + span >= slotAfter(-MAXIMUM_GOSSIP_CLOCK_DISPARITY) && slot <= slotAfter(MAXIMUM_GOSSIP_CLOCK_DISPARITY)))
 
@@ -144,3 +145,104 @@ package gossipval
 //@   ensures accept_proposer: res.Result == ACCEPT ==> (let pe := ch_entry(old(gvver), block.ParentRoot) in let spe := gv_spec(blockVal).SLOTS_PER_EPOCH in ((ce_step(pe) / 2) / spe == block.Slot / spe ==> epc_proposer(ce_epc(pe), block.Slot) == block.ProposerIndex) && ((ce_step(pe) / 2) / spe != block.Slot / spe ==> (ce_step(pe) / 2) / spe < block.Slot / spe && (exists ts SlotT :: epc_proposer(ce_epc(ch_towards(old(gvver), block.ParentRoot, ts)), block.Slot) == block.ProposerIndex)))
 //@   ensures reject_class: res.Result == REJECT ==> ch_known(old(gvver), block.ParentRoot) && block.Slot <= gv_slot_after(old(gvver), MAXIMUM_GOSSIP_CLOCK_DISPARITY) && !gv_seen_block(old(gvver), block.Slot, block.ProposerIndex)
 //@   ensures marks: n_mark_block == old(n_mark_block) + ite(res.Result == ACCEPT, 1, 0) && (res.Result == ACCEPT ==> last_mark_block_slot == block.Slot && last_mark_block_proposer == block.ProposerIndex)
+
+// ---------------------------------------------------------------- beacon_attestation_{subnet} topic (C12)
+
+//@ ghost n_mark_att int
+//@ ghost last_mark_att_epoch int
+//@ ghost last_mark_att_voter int
+//@ sort DomT = common.BLSDomain
+//@ sort DomTypeT = common.BLSDomainType
+//@ sort EpochT = common.Epoch
+//@ ufun gv_bad_block(int, RootT) bool
+//@ ufun gv_seen_att(int, EpochT, VIdx) bool
+//@ ufun gv_domain_err(int, DomTypeT, EpochT) bool
+//@ ufun gv_domain(int, DomTypeT, EpochT) DomT
+
+//@ func (b BadBlockValidator) IsBadBlock(root) r
+//@   trusted
+//@   opt noalloc
+//@   ensures r == gv_bad_block(gvver, root)
+
+//@ func (d DomainGetter) GetDomain(typ, epoch) (dom, err)
+//@   trusted
+//@   opt noalloc
+//@   ensures (err != nil) == gv_domain_err(gvver, typ, epoch)
+//@   ensures err == nil ==> dom == gv_domain(gvver, typ, epoch)
+
+//@ func (b AttestationValBackend) SeenAttestation(targetEpoch, voter) r
+//@   trusted
+//@   opt noalloc
+//@   ensures r == gv_seen_att(gvver, targetEpoch, voter)
+
+//@ func (b AttestationValBackend) MarkAttestation(targetEpoch, voter)
+//@   trusted
+//@   opt noalloc
+//@   assigns ghost(gvver), ghost(n_mark_att), ghost(last_mark_att_epoch), ghost(last_mark_att_voter)
+//@   ensures n_mark_att == old(n_mark_att) + 1 && last_mark_att_epoch == targetEpoch && last_mark_att_voter == voter
+
+// ACCEPT implies the topic's conditions as far as they are expressible over the back-end
+// model (timing window, epoch/target agreement, exactly one bit, voted block known and
+// not bad and not from the future, target and finalized checkpoint are ancestors, the
+// signature is valid over the full signing root under the attester domain for some
+// cached key); REJECT never results from the timing window alone; marked iff ACCEPT.
+//@ func ValidateAttestation(ctx, subnet, att, attVal) (comm, res)
+//@   property C12
+//@   requires att != nil && attVal != nil
+//@   requires caches: forall r PcPtr :: {pctrig(r)} pctrig(r) && alloc(r) ==> pc_local(r.pub2idx, r.idx2pub, r.trustedParentCount) && pc_chain(r.parent, r, r.trustedParentCount, r.parent.trustedParentCount, len(r.parent.idx2pub))
+//@   requires nolocks: forall r PcPtr :: {held(r.rwLock)} held(r.rwLock) == 0
+//@   assigns ghost(gvver), ghost(n_mark_att), ghost(last_mark_att_epoch), ghost(last_mark_att_voter), heap(CachedPubkey.decompressed)
+//@   ensures accept_timing: res.Result == ACCEPT ==> att.Data.Slot + ATTESTATION_PROPAGATION_SLOT_RANGE < 18446744073709551616 && att.Data.Slot + ATTESTATION_PROPAGATION_SLOT_RANGE >= gv_slot_after(old(gvver), -MAXIMUM_GOSSIP_CLOCK_DISPARITY) && att.Data.Slot <= gv_slot_after(old(gvver), MAXIMUM_GOSSIP_CLOCK_DISPARITY)
+//@   ensures accept_shape: res.Result == ACCEPT ==> att.Data.Target.Epoch == att.Data.Slot / gv_spec(attVal).SLOTS_PER_EPOCH && bl_count(att.AggregationBits) == 1
+//@   ensures accept_block: res.Result == ACCEPT ==> !gv_bad_block(old(gvver), att.Data.BeaconBlockRoot) && ch_known(old(gvver), att.Data.BeaconBlockRoot) && ce_step(ch_entry(old(gvver), att.Data.BeaconBlockRoot)) / 2 <= att.Data.Slot
+//@   ensures accept_target: res.Result == ACCEPT ==> !ch_unknown(old(gvver), att.Data.Target.Root, att.Data.BeaconBlockRoot) && ch_insub(old(gvver), att.Data.Target.Root, att.Data.BeaconBlockRoot)
+//@   ensures accept_finalized: res.Result == ACCEPT ==> (att.Data.BeaconBlockRoot != ch_fin(old(gvver)).Root ==> !ch_unknown(old(gvver), ch_fin(old(gvver)).Root, att.Data.BeaconBlockRoot) && ch_insub(old(gvver), ch_fin(old(gvver)).Root, att.Data.BeaconBlockRoot)) && (att.Data.BeaconBlockRoot == ch_fin(old(gvver)).Root ==> ch_fin(old(gvver)).Epoch <= att.Data.Target.Epoch)
+//@   ensures accept_signature: res.Result == ACCEPT ==> !gv_domain_err(old(gvver), common.DOMAIN_BEACON_ATTESTER, att.Data.Target.Epoch) && sig_valid(att.Signature) && (exists p CPubP :: pub_valid(p.Compressed) && bls_ok(p.Compressed, seq(signing_root(att_data_root(att.Data), gv_domain(old(gvver), common.DOMAIN_BEACON_ATTESTER, att.Data.Target.Epoch))), att.Signature))
+//@   ensures reject_not_timing: res.Result == REJECT ==> att.Data.Target.Epoch * gv_spec(attVal).SLOTS_PER_EPOCH >= 18446744073709551616 || (att.Data.Slot + ATTESTATION_PROPAGATION_SLOT_RANGE < 18446744073709551616 && att.Data.Slot + ATTESTATION_PROPAGATION_SLOT_RANGE >= gv_slot_after(old(gvver), -MAXIMUM_GOSSIP_CLOCK_DISPARITY) && att.Data.Slot <= gv_slot_after(old(gvver), MAXIMUM_GOSSIP_CLOCK_DISPARITY))
+//@   ensures marks: n_mark_att == old(n_mark_att) + ite(res.Result == ACCEPT, 1, 0) && (res.Result == ACCEPT ==> last_mark_att_epoch == att.Data.Target.Epoch) && (res.Result != ACCEPT ==> gvver == old(gvver))
+
+// ---------------------------------------------------------------- beacon_aggregate_and_proof topic (C12)
+
+//@ ghost n_mark_agg int
+//@ ghost n_mark_aggregator int
+//@ sort StateI2 = common.BeaconState
+//@ ufun gv_seen_agg(int, RootT) bool
+//@ ufun gv_seen_aggregator(int, EpochT, VIdx) bool
+
+//@ func (b AggregatesValBackend) SeenAggregate(aggRoot) r
+//@   trusted
+//@   opt noalloc
+//@   ensures r == gv_seen_agg(gvver, aggRoot)
+
+//@ func (b AggregatesValBackend) MarkAggregate(aggRoot)
+//@   trusted
+//@   opt noalloc
+//@   assigns ghost(gvver), ghost(n_mark_agg)
+//@   ensures n_mark_agg == old(n_mark_agg) + 1
+
+//@ func (b AggregatesValBackend) SeenAggregator(targetEpoch, aggregator) r
+//@   trusted
+//@   opt noalloc
+//@   ensures r == gv_seen_aggregator(gvver, targetEpoch, aggregator)
+
+//@ func (b AggregatesValBackend) MarkAggregator(targetEpoch, aggregator)
+//@   trusted
+//@   opt noalloc
+//@   assigns ghost(gvver), ghost(n_mark_aggregator)
+//@   ensures n_mark_aggregator == old(n_mark_aggregator) + 1
+
+//@ func ValidateAggregateAndProof(ctx, signedAgg, aggVal) (comm, res)
+//@   property C12
+//@   requires signedAgg != nil && aggVal != nil
+//@   requires caches: forall r PcPtr :: {pctrig(r)} pctrig(r) && alloc(r) ==> pc_local(r.pub2idx, r.idx2pub, r.trustedParentCount) && pc_chain(r.parent, r, r.trustedParentCount, r.parent.trustedParentCount, len(r.parent.idx2pub))
+//@   requires nolocks: forall r PcPtr :: {held(r.rwLock)} held(r.rwLock) == 0
+//@   assigns ghost(gvver), ghost(n_mark_agg), ghost(n_mark_aggregator), heap(CachedPubkey.decompressed)
+//@   ensures accept_timing: res.Result == ACCEPT ==> signedAgg.Message.Aggregate.Data.Slot + ATTESTATION_PROPAGATION_SLOT_RANGE >= gv_slot_after(old(gvver), -MAXIMUM_GOSSIP_CLOCK_DISPARITY) && signedAgg.Message.Aggregate.Data.Slot <= gv_slot_after(old(gvver), MAXIMUM_GOSSIP_CLOCK_DISPARITY)
+//@   ensures accept_shape: res.Result == ACCEPT ==> signedAgg.Message.Aggregate.Data.Target.Epoch == signedAgg.Message.Aggregate.Data.Slot / gv_spec(aggVal).SLOTS_PER_EPOCH && bl_count(signedAgg.Message.Aggregate.AggregationBits) >= 1
+//@   ensures accept_first: res.Result == ACCEPT ==> !gv_seen_aggregator(old(gvver), signedAgg.Message.Aggregate.Data.Target.Epoch, signedAgg.Message.AggregatorIndex) && !gv_seen_agg(old(gvver), att_root(gv_spec(aggVal), signedAgg.Message.Aggregate))
+//@   ensures accept_block: res.Result == ACCEPT ==> !gv_bad_block(old(gvver), signedAgg.Message.Aggregate.Data.BeaconBlockRoot)
+//@   ensures accept_finalized: res.Result == ACCEPT ==> (signedAgg.Message.Aggregate.Data.BeaconBlockRoot != ch_fin(old(gvver)).Root ==> !ch_unknown(old(gvver), ch_fin(old(gvver)).Root, signedAgg.Message.Aggregate.Data.BeaconBlockRoot) && ch_insub(old(gvver), ch_fin(old(gvver)).Root, signedAgg.Message.Aggregate.Data.BeaconBlockRoot))
+//@   ensures accept_selection: res.Result == ACCEPT ==> (exists e EpcP, st StateI :: aggsel_ok(gv_spec(aggVal), e, st, signedAgg.Message.Aggregate.Data.Slot, signedAgg.Message.Aggregate.Data.Index, signedAgg.Message.AggregatorIndex, signedAgg.Message.SelectionProof))
+//@   ensures accept_aggregator_signature: res.Result == ACCEPT ==> sig_valid(signedAgg.Signature) && (exists st StateI, p CPubP :: pub_valid(p.Compressed) && bls_ok(p.Compressed, seq(signing_root(aggproof_root(gv_spec(aggVal), signedAgg.Message), state_domain(st, common.DOMAIN_AGGREGATE_AND_PROOF, signedAgg.Message.Aggregate.Data.Target.Epoch))), signedAgg.Signature))
+//@   ensures accept_aggregate_signature: res.Result == ACCEPT ==> (exists e EpcP, st StateI, ia IdxAttT :: idxatt_ok(gv_spec(aggVal), e, st, ia))
+//@   ensures marks: n_mark_agg == old(n_mark_agg) + ite(res.Result == ACCEPT, 1, 0) && n_mark_aggregator == old(n_mark_aggregator) + ite(res.Result == ACCEPT, 1, 0) && (res.Result != ACCEPT ==> gvver == old(gvver))
